@@ -142,6 +142,8 @@ floats_finite = st.one_of(st.sampled_from([0.0, -0.0, 0.5, 1.0, 1.5, 1e21, 1e-7,
 floats_bad = st.sampled_from([float("nan"), float("inf"), float("-inf")])
 texts = st.one_of(
     st.sampled_from(["", "a", "0", "1", " 1 ", "héllo", "日本語", "x😀y", "𝄞", "12px", "0x10", "a.b", "\u0000", "\ud800", "\udc00x", "\ufeff", "line\nbreak", '"quoted"', "\\"]),
+    # strings that *spell* JSON documents are still strings
+    st.sampled_from(['{"var": "secret"}', '{"var":""}', '[1,2]', '{"a":"leak"}', ' {"x":1}', '[]', '{}', 'null', 'true', '"s"', '{"+":[1,2]}', '[{"var":"a"}]']),
     st.text(max_size=6),
     st.text(alphabet=st.characters(min_codepoint=0x10000, max_codepoint=0x10FFFF), max_size=3),
 )
@@ -435,7 +437,70 @@ def check_scalar_history(stats, calls):
     return "scalar history of %d calls" % len(calls), len(calls) >= 2
 
 
+def check_concat_history(stats, case):
+    """pairs of calls whose rule text + data text concatenate to the same characters, split at different points"""
+    digits, cuts, mode = case
+    text = "".join(str(d) for d in digits)
+    seen = 0
+    for cut in cuts:
+        i = 1 + cut % max(1, len(text) - 1) if len(text) > 1 else 1
+        left, right = text[:i], text[i:]
+        if mode == "apply":
+            if not right or (len(left) > 1 and left[0] == "0") or (len(right) > 1 and right[0] == "0"):
+                continue
+            check_apply(stats, int(left), int(right), "positional", "omitted", "omitted")
+        else:
+            dotted = left[:1] + "." + left[1:] if len(left) > 1 and mode == "serialized-dotted" else left
+            check_apply_serialized(stats, dotted, right, "positional", "omitted")
+        seen += 1
+    return "concatenation history of %d calls" % seen, seen >= 2
+
+
+def check_mutation_history(stats, case):
+    """the same dict / list object passed again after in-place edits: each call sees the current content"""
+    kind, edits = case
+    if kind == "data":
+        obj = {"temp": 20, "items": [1, 2, 3]}
+        rule = {"cat": [{"var": "temp"}, "|", {"reduce": [{"var": "items"}, {"+": [{"var": "current"}, {"var": "accumulator"}]}, 0]}, "|", {"var": ["extra", "none"]}]}
+        call = lambda: check_apply(stats, rule, obj, "positional", "omitted", "omitted")
+    elif kind == "rule-list":
+        obj = [1]
+        call = lambda: check_apply(stats, obj, None, "omitted", "omitted", "omitted")
+    else:
+        obj = {"var": "a", "note": 0}
+        call = lambda: check_apply(stats, obj, {"a": 1, "b": 2}, "positional", "omitted", "omitted")
+    call()
+    n = 0
+    for e in edits:
+        if isinstance(obj, list):
+            if e % 3 == 0 and obj:
+                obj.pop()
+            else:
+                obj.append(e)
+        elif kind == "data":
+            if e % 4 == 0:
+                obj["temp"] = e * 10
+            elif e % 4 == 1:
+                obj["items"].append(e)
+            elif e % 4 == 2:
+                obj["extra"] = "x%d" % e
+            else:
+                obj.pop("extra", None)
+        else:
+            if e % 3 == 0:
+                obj.pop("note", None)
+            elif e % 3 == 1:
+                obj["var"] = "b" if obj.get("var") == "a" else "a"
+            else:
+                obj["note"] = e
+        call()
+        n += 1
+    return "mutation history (%s) of %d edits" % (kind, n), n >= 1
+
+
 BODIES = {
+    "py_concat_history": lambda stats, c: check_concat_history(stats, c),
+    "py_mutation_history": lambda stats, c: check_mutation_history(stats, c),
     "py_scalar_history": lambda stats, c: check_scalar_history(stats, c),
     "py_apply": lambda stats, c: check_apply(stats, c[0], c[1], c[2], c[3], c[4]),
     "py_apply_serialized": lambda stats, c: check_apply_serialized(stats, c[0], c[1], c[2], c[3]),
@@ -500,6 +565,18 @@ if args.prop == "C19":
         st.lists(st.tuples(st.sampled_from(SCALAR_RULES), st.sampled_from(COLLIDING), st.sampled_from(["omitted", "omitted", "json.dumps"]), st.booleans()), min_size=2, max_size=8),
         lambda stats, c: check_scalar_history(stats, c),
         max(200, n // 4),
+    )
+    run_sub(
+        "py_concat_history",
+        st.tuples(st.lists(st.integers(0, 9), min_size=2, max_size=6), st.lists(st.integers(0, 5), min_size=2, max_size=4, unique=True), st.sampled_from(["apply", "serialized", "serialized-dotted"])),
+        lambda stats, c: check_concat_history(stats, c),
+        max(200, n // 4),
+    )
+    run_sub(
+        "py_mutation_history",
+        st.tuples(st.sampled_from(["data", "rule-list", "rule-dict"]), st.lists(st.integers(0, 20), min_size=1, max_size=6)),
+        lambda stats, c: check_mutation_history(stats, c),
+        max(150, n // 8),
     )
 elif args.prop == "C01":
     n = int((20000 if thorough else 800) * scale)
